@@ -3,10 +3,13 @@ CONSTANTS
   Need <- NeedDef
   NProcs = {1, 2, 3}
   SharedPerChunk = TRUE
+  OptSets <- OptsDefault
+  SwapOptions = FALSE
   Export = TRUE
 SPECIFICATION Spec
 INVARIANT Independent
 INVARIANT ChunksPartition
+INVARIANT OptionsReachWriter
 PROPERTY Terminates
 CONSTRAINT ExportDone
 CHECK_DEADLOCK FALSE
